@@ -278,6 +278,41 @@ def rule_op_eval(chk, ev):
     return True
 
 
+def rule_to_uint64(chk):
+    """Constant::to_uint64 (array lengths, attribute arguments, register numbers are read through it) evaluated on every
+    integer constant kind: a value is returned only for a non-negative integer that fits 64 bits, and it is that integer."""
+    import interp as I
+    f = chk.facts
+    fn = f.fn("to_uint64", "rssl_ir", self_ty="Constant")
+    if not fn:
+        return
+    ip = I.Interp(f, max_depth=4, extern={})
+    SAM = {"Bool": [False, True], "IntLiteral": [-(1 << 70), -1, 0, 1, 42, (1 << 64) - 1, 1 << 64, 1 << 100], "Int32": [-2147483648, -1, 0, 7, 2147483647],
+           "UInt32": [0, 7, 4294967295], "Int64": [-(1 << 63), -1, 0, 7, (1 << 63) - 1], "UInt64": [0, 7, (1 << 64) - 1],
+           "Float32": [1.0, -1.0], "Float64": [2.0], "FloatLiteral": [3.0]}
+    for kind, vals in SAM.items():
+        bad = None
+        for v in vals:
+            try:
+                r = ip.apply(fn, [I.Enum("Constant", kind, {"0": v})])
+            except I.Unknown as e:
+                if "panicking" in str(e):
+                    bad = bad or "to_uint64(%s(%r)) aborts" % (kind, v)
+                    continue
+                chk.note("C13.conv: Constant::to_uint64 is not readable (%s)" % str(e)[:60])
+                return
+            got = r.fields.get("0") if isinstance(r, I.Enum) and r.variant == "Some" else None
+            if isinstance(v, float):
+                continue        # whether a float constant converts is a choice; it must not abort
+            iv = int(v)
+            if got is not None and (iv < 0 or iv >= (1 << 64) or got != iv):
+                bad = bad or "to_uint64(%s(%d)) = %d: %s" % (kind, iv, got, "a negative constant becomes a huge unsigned value" if iv < 0 else "not the value")
+            if got is None and 0 <= iv < (1 << 64) and kind != "Bool":
+                pass            # refusing is allowed
+        chk.ob("C13.conv/to_uint64/" + kind, bad is None, "%d values: only non-negative integers below 2^64 convert, to themselves" % len(vals) if bad is None else bad, where(fn),
+               sample={"kind": kind, "values": len(vals)})
+
+
 
 def run(chk):
     f = chk.facts
@@ -296,6 +331,7 @@ def run(chk):
     if ecx:
         rule_sites(chk, ecx)
     rule_literal_fold(chk)
+    rule_to_uint64(chk)
 
 
 def outer_match(fn, adt):
